@@ -2,5 +2,5 @@ SPECIFICATION TSpec
 CONSTANTS
   SwapRefreshesNormals = TRUE
   MergeKeepsFourNodes = TRUE
-INVARIANTS P_Lattice_NoError P_Lattice_Pressure P_Lattice_Tension P_NetForceZero P_NetTorqueZero P_RigidCovariance P_EnergyGradients
+INVARIANTS P_Lattice_NoError P_Lattice_Pressure P_Lattice_Tension P_NetForceZero P_NetTorqueZero P_RigidCovariance P_StorageOrder P_EnergyGradients
 CHECK_DEADLOCK FALSE
